@@ -8,11 +8,12 @@ from props.c04 import BAD_FRAMES
 
 
 def strict_json(b):
-    """-> python value, or Ellipsis when b is not valid JSON by a strict reading"""
+    """-> python value, or Ellipsis when b is not syntactically valid JSON.  Validity is judged byte-wise
+    (bytes >= 0x80 inside strings are not required to be UTF-8, as for Go's json.Valid)."""
     def bad(x):
         raise ValueError(x)
     try:
-        return json.loads(b.decode("utf-8"), parse_constant=bad)
+        return json.loads(b.decode("latin-1"), parse_constant=bad)
     except (UnicodeDecodeError, ValueError, RecursionError):
         return Ellipsis
 
